@@ -142,9 +142,18 @@ def transcript(xml: Path, scratch: Path, tag: str, config) -> list:
             for q in (str(wd.lemma()), str(wd.lemma()) + 's', str(wd.lemma()) + 'es'):
                 put(['morphy', q, _items({str(k): sorted(v) for k, v in m0(q).items()}),
                      _items({str(k): sorted(v) for k, v in m1(q).items()})])
+        # lemmas of every installed lexicon, also those outside this configuration: what an
+        # initialised Morphy answers depends on its own wordnet only, whatever other lemmatizers
+        # were built in this process before
+        everywhere = sorted({str(wd.lemma()) for wd in wn.words()})[:12]
+        for q in everywhere:
+            put(['morphy-any-lexicon', q,
+                 [_items({str(k): sorted(v) for k, v in m1(q + sfx).items()})
+                  for sfx in ('', 's', 'es')]])
         with warnings.catch_warnings():
             warnings.simplefilter('ignore')
             lw = wn.Wordnet(lexicon, expand=expand, lemmatizer=m1)
+        put(['lemmatized-any-lexicon', [_ids(lw.words(q + 's')) for q in everywhere]])
         put(['lemmatized', [_ids(lw.words(str(wd.lemma()) + 's')) for wd in w.words()[:6]]])
         # queries whose candidate lemmas (a set per part of speech) all exist
         for q in sorted({str(wd.lemma()) + sfx for wd in w.words()[:8] for sfx in ('s', 'es')}):
